@@ -615,6 +615,10 @@ def run_unit(name, workdir, rlimit=None, seed=None, twins=True):
             f.write(ttext)
         tr = run_verus(tpath, rlimit=rlimit or unit.get("rlimit"), seed=seed, flags=unit.get("verus_flags", ()))
         tverr, tterr = classify(tr["diags"], os.path.basename(tpath))
+        # a must-fail twin that exhausts the solver budget is not accepted either: count it as rejected when the span is inside a twin
+        rl = [t for t in tterr if "rlimit" in t["message"] and any(any(w["start"] <= sp["line"] <= w["end"] for w in tw) for sp in t["spans"])]
+        tterr = [t for t in tterr if t not in rl]
+        tverr = tverr + rl
         res["twins_total"] = len(tw)
         if tr["out"] is None or tterr or (tr["out"].get("verification-results") or {}).get("encountered-vir-error"):
             res["undecided"].append("twin run failed (tool/compile error): %s" % "; ".join(t["message"] for t in tterr)[:300])
